@@ -6,7 +6,7 @@ import time
 from vlib import common as C, verus_check as V, native, rustscan as rs, transplant as tp
 
 PROP = "C18"
-UNITS = [("char_range_gen", 9)]
+UNITS = [("char_range_gen", 14)]
 GEN = "crates/char_range_gen/src/main.rs"
 
 TRUSTED = [
